@@ -452,7 +452,7 @@ func (f *dirFS) Link(oldname, newname string) error {
 	// So we must sanitize it. It should point to a file that is within the filesystem.
 	target := filepath.Join(f.base, oldname)
 	target = filepath.Clean(target)
-	if !strings.HasPrefix(target, f.base) {
+	if !isWithin(f.base, target) {
 		return fmt.Errorf("hardlink target %s is outside of the filesystem", target)
 	}
 	if f.createOnDisk(newname) {
@@ -557,11 +557,25 @@ func (f *dirFS) sanitizePath(p string) (v string, err error) {
 }
 func sanitizePath(base, p string) (v string, err error) {
 	v = filepath.Join(base, p)
-	if strings.HasPrefix(filepath.Clean(v), base) {
+	if isWithin(base, filepath.Clean(v)) {
 		return v, nil
 	}
 
 	return "", fmt.Errorf("%s: %s", "content filepath is tainted", p)
+}
+
+// isWithin reports whether the cleaned path p is base itself or lies lexically below it.
+// The separator is part of the prefix: a plain strings.HasPrefix(p, base) also accepts
+// siblings of base such as base+"2".
+func isWithin(base, p string) bool {
+	base = filepath.Clean(base)
+	if p == base {
+		return true
+	}
+	if !strings.HasSuffix(base, string(filepath.Separator)) {
+		base += string(filepath.Separator)
+	}
+	return strings.HasPrefix(p, base)
 }
 
 func (f *dirFS) caseSensitiveOnDisk(p string) bool {
